@@ -123,6 +123,8 @@ class World:
         sp.field_sorts[('analyze_transactions', '[]')] = stats_get
         sp.field_sorts[('setitem', 'analyze_transactions')] = lambda I, o, k, v, node: None
         sp.models['method:Obj:analyze_transactions.get'] = Func(lambda I, a, k, n: Untracked())
+        for meth in ('keys', 'items', 'values'):
+            sp.models['method:Obj:*.%s' % meth] = Func(lambda I, a, k, n: Untracked())
         for name in ('get_transforms', '_check_merchant_migration', 'load_supplemental_sources', 'parse_amex', 'parse_boa', 'parse_generic_csv',
                      'analyze_transactions', 'classify_by_sections', 'compute_section_totals', 'export_json', 'export_markdown', 'print_summary',
                      'print_sections_summary', 'write_summary_file_vue', '_check_deprecated_description_cleaning', '_warn_deprecated_parser',
